@@ -261,7 +261,11 @@ pub fn run(case: &Value) -> Value {
         return json!({"compile_error": e});
     }
     let mut s1 = c.finalize();
-    s1.set_scan_params(build_params(&case["params"]));
+    let mut sp = build_params(&case["params"]);
+    if let Some(ns) = case["params"]["timeout_ns"].as_u64() {
+        sp = sp.timeout_duration(Some(std::time::Duration::from_nanos(ns)));
+    }
+    s1.set_scan_params(sp);
 
     let mut file = Vec::new();
     if let Err(e) = s1.to_bytes(&mut file) {
